@@ -118,13 +118,14 @@ impl From<Operand> for u64 {
 }
 
 impl Axecutor {
-    pub(crate) fn mem_addr(&self, o: MemOperand) -> u64 {
+    /// The effective address of a memory operand without the segment base (this is what LEA stores)
+    pub(crate) fn effective_addr(&self, o: MemOperand) -> u64 {
         let MemOperand {
             base,
             index,
             scale,
             displacement,
-            segment,
+            segment: _,
         } = o;
         let mut addr: u64 = 0;
         if let Some(base) = base {
@@ -144,7 +145,13 @@ impl Axecutor {
         // This overflow is explicitly allowed, as x86-64 encodes negative values as signed integers
         addr = addr.wrapping_add(displacement);
 
-        if let Some(reg) = segment {
+        addr
+    }
+
+    pub(crate) fn mem_addr(&self, o: MemOperand) -> u64 {
+        let mut addr = self.effective_addr(o);
+
+        if let Some(reg) = o.segment {
             match reg {
                 SupportedSegmentRegister::FS => {
                     debug_log!(
